@@ -8,6 +8,9 @@ Case format
                                            cb: `try: t.p<b> = k  except (ValueError, TypeError): pass`  (registered after the
                                            universal watcher; they do not chain and do not assign what they watch)
   falsy_src: bool (default false)          the source class defines __bool__ -> False (an "empty" Parameterized)
+  ev_watch : bool (default false)          every target gets two watchers of its Event parameter e_: the first (precedence 0)
+                                           makes a rejected assignment `t.e_ = 'junk'` (ValueError, swallowed), the second
+                                           (precedence 1) reads t.e_ — it must still read what its event announces
   nsread   : bool (default false)          the targets' Parameter classes read `self.owner.param` while validating
   sub      : bool (default false)          every target class T<t> is an empty subclass of a class that declares the
                                            parameters, so a class-level assignment `T<t>.p = v` meets an *inherited* Parameter
@@ -27,6 +30,7 @@ Case format
      {"op":"ctxExit"}                            r.__exit__(None, None, None)               (restorer popped)
      {"op":"srcSet","s":s,"i":i,"v":n}           S<s>.v<i> = n
      {"op":"lock","t":t,"p":p}                   t.param.p<p>.constant = True   (the instance's own Parameter copy)
+     {"op":"trigger","t":t}                      t.e_ = True   (the Event fires its watchers and resets itself; a no-op for the model)
   rhs  : {"k":"atom","a":atom} | {"k":"cont","items":[atom, ...]}        a tuple of atoms
        | {"k":"gen"}   the case's shared number generator (a plain callable, i.e. a Dynamic value; it is also the
                        value of the witness parameter W.a); only ever assigned where it must be rejected: a
@@ -212,7 +216,24 @@ class Runner:
             self._universal(obj, 't', t, self.tnames[t])
         for h in self.case.get('hooks', []):
             self._hook(h)
+        self.late_read_ok = [1] * len(self.tgts)
+        if self.case.get('ev_watch'):
+            for t, obj in enumerate(self.tgts):
+                self._event_watchers(t, obj)
         return None
+
+    def _event_watchers(self, t, obj):
+        def rejecting(event, _o=obj):
+            try:
+                _o.e_ = 'junk'                  # rejected by Event/Boolean validation
+            except ValueError:
+                pass
+
+        def reading(event, _o=obj, _t=t):
+            if bool(_o.e_) != bool(event.new):   # a rejected assignment made meanwhile must not have changed the Event
+                self.late_read_ok[_t] = 0
+        obj.param.watch(rejecting, ['e_'], onlychanged=False, precedence=0)
+        obj.param.watch(reading, ['e_'], onlychanged=False, precedence=1)
 
     def _hook(self, h):
         obj, names = self.tgts[h['t']], self.tnames[h['t']]
@@ -308,6 +329,8 @@ class Runner:
                     [int(bool(clsp[n].constant)) for n in self.tnames[t]]
             # the cached `.param` namespace of the class names the Parameter that attribute lookup finds
             flags += [int(clsp[n] is inspect.getattr_static(self.tcls[t], n)) for n in self.tnames[t]]
+            # a later watcher of the Event always read what its event announced
+            flags += [self.late_read_ok[t]]
             rows.append([int(bool(obj.e_)), self.MODES.get(ev._mode, 9), self.MODES.get(clsev._mode, 9)] + flags +
                         sorted(self.tnames[t].index(n) if n in self.tnames[t] else 99 for n in obj._param__private.syncing))
         last = self.wit.param.inspect_value('a')
@@ -326,6 +349,9 @@ class Runner:
             raise NotImplementedError
         if o in ('update', 'ctxEnter') and not all(key_supported(tds[op['t']], p, r) for p, r in op['kvs']):
             raise NotImplementedError
+        if o == 'trigger':
+            self.tgts[op['t']].e_ = True
+            return
         if o == 'lock':
             pd = tds[op['t']]['params'][op['p']] if op['p'] < len(tds[op['t']]['params']) else None
             if pd is None or pd['constant'] or pd['readonly'] or not pd.get('per_instance', True) or pd['kind'] != 'int':
@@ -542,8 +568,9 @@ def val_ok(pd, v):
     return pd['kind'] == 'pair' and len(v) == 2 and all(inb(x) for x in v)
 
 
-def mk_case(prop, src_init, targets, ops, nsp=2, sub=False, hooks=(), falsy_src=False, nsread=False):
-    return {'prop': prop, 'nsp': nsp, 'sub': sub, 'hooks': [dict(h) for h in hooks], 'falsy_src': falsy_src, 'nsread': nsread, 'src_init': [list(r) for r in src_init],
+def mk_case(prop, src_init, targets, ops, nsp=2, sub=False, hooks=(), falsy_src=False, nsread=False, ev_watch=False):
+    return {'prop': prop, 'nsp': nsp, 'sub': sub, 'hooks': [dict(h) for h in hooks], 'falsy_src': falsy_src, 'nsread': nsread,
+            'ev_watch': ev_watch, 'src_init': [list(r) for r in src_init],
             'targets': [{'params': [dict(p) for p in t['params']], 'ctor': t.get('ctor', [])} for t in targets],
             'ops': ops}
 
@@ -611,7 +638,9 @@ def gen_history(rng, targets, src, n_ops, nsrc, nsp, p_bad_src=0.06, locked=None
         linkable = [i for i, pd in enumerate(pds) if pd['allow_refs'] and not pd['readonly'] and not pd['constant']
                     and (t, i) not in locked]
         r = rng.random()
-        if r < 0.05 and any(lockable(pd) for pd in pds):
+        if r < 0.03:
+            ops.append({'op': 'trigger', 't': t})
+        elif r < 0.06 and any(lockable(pd) for pd in pds):
             p = rng.choice([i for i, pd in enumerate(pds) if lockable(pd)])
             locked.add((t, p))
             ops.append({'op': 'lock', 't': t, 'p': p})
@@ -837,7 +866,7 @@ def gen_case(rng, prop, max_ops=10):
             ops += probe_suffix(rng, src, nsrc, nsp)
     return mk_case(prop, init, targets, ops, nsp, sub=(prop == 'C02' and rng.random() < 0.5),
                    hooks=rand_hooks(rng, targets) if rng.random() < 0.45 else (), falsy_src=rng.random() < 0.25,
-                   nsread=rng.random() < 0.35)
+                   nsread=rng.random() < 0.35, ev_watch=rng.random() < 0.4)
 
 
 def _strip_own(o):
@@ -858,7 +887,7 @@ def compare(impl, model):
 
 def tags(case, impl):
     t = [f'targets={len(case["targets"])}', f'len={min(len(case["ops"]), 12)}', 'subclass' if case.get('sub') else 'direct-class']
-    t += ['hooks'] * bool(case.get('hooks')) + ['falsy-sources'] * bool(case.get('falsy_src')) + ['nsread-validators'] * bool(case.get('nsread'))
+    t += ['event-watchers'] * bool(case.get('ev_watch')) + ['hooks'] * bool(case.get('hooks')) + ['falsy-sources'] * bool(case.get('falsy_src')) + ['nsread-validators'] * bool(case.get('nsread'))
     shared = {(ti, pi) for ti, td in enumerate(case['targets']) for pi, pd in enumerate(td['params']) if not pd.get('per_instance', True)}
     for ti, td in enumerate(case['targets']):
         for p, rhs in td['ctor']:
